@@ -66,6 +66,17 @@ def universe(tier, seed):
         i, r = divmod(k, len(B3) ** 2)
         j, l = divmod(r, len(B3))
         gs.append(with_n(rule('a', B3[i]), rule('b', B3[j]), rule('c', B3[l])))
+    # interlocking cycles, exhaustively: every rule of a, b, c starts alternatives with any subset of {a, b, c} (itself included) and ends
+    # with the terminal alternative - among them the components in which no rule lies on every cycle (each of the three starts with the
+    # other two), where one leader cannot guard all cycles
+    subsets = [[n for n, bit in zip(names3, (4, 2, 1)) if m & bit] for m in range(8)]
+    for sa, sb, sc in itertools.product(subsets, repeat=3):
+        if not (sa or sb or sc):
+            continue
+        mk = lambda ns, post: alt(*[seq(call(n), tok(post)) if post else seq(call(n)) for n in ns], seq(tok('y')))     # noqa: E731
+        gs.append(with_n(rule('a', mk(sa, None)), rule('b', mk(sb, None)), rule('c', mk(sc, None))))
+        if len(sa) + len(sb) + len(sc) >= 4 and tier != 'quick' or (len(sa), len(sb), len(sc)) == (2, 2, 2):
+            gs.append(with_n(rule('a', mk(sa, 'x')), rule('b', mk(sb, ',')), rule('c', mk(sc, 'y'))))
     return gs
 
 
